@@ -33,6 +33,7 @@ TITLES = [
     ("C14", r"folded-differs", "constant folding is not three-valued: NULL AND FALSE / NULL OR TRUE fold to NULL, x % 0 panics in the folder", "src/planner/rules/expr.rs eval_constant"),
     ("C14", r"overflow-not-an-error", "integer overflow (+, -, *, unary -, MIN / -1, SUM) and % by zero panic inside the operator (debug) / wrap (release) instead of returning an error value", "src/array/ops.rs arithmetic kernels"),
     ("C14", r"wrong-value", "vectorised evaluation differs from scalar three-valued semantics", "src/array/ops.rs"),
+    ("C19", r"less-than-operator-fails|query-fails", "comparison operators (=, <, ...) are accepted by the type checker for TIMESTAMP / INTERVAL / BLOB but have no vectorised implementation ('no function eq/gt'): the relations used by ORDER BY / GROUP BY cannot be expressed with the SQL operators", "src/array/ops.rs (cmp kernels: missing variants); src/planner/rules/type_.rs"),
     ("C16", r"lossy-or-invalid-conversion-accepted", "INSERT converts with loss instead of failing: a fractional literal is truncated into an integer column (1.5 -> 1)", "src/array/ops.rs (cast), src/executor/insert.rs"),
     ("C17", r"optimizer-panics", "the optimizer panics (egg extractor unwrap) on NOT IN over a filtered subquery and on a non-constant LIMIT", "src/planner/optimizer.rs / egg extract; src/planner/rules/plan.rs subquery_rules"),
     ("C17", r"malformed-plan:unresolved-subquery", "scalar / nested IN subqueries survive optimisation as sub-plans inside expressions (no executor for them)", "src/planner/rules/plan.rs subquery_rules"),
